@@ -150,3 +150,9 @@ PROPS.update({
         runs=[step_run("c18", "no_mismatches", "c18_violations", "c18_nontrivial")],
     ),
 })
+
+# property groups built separately: checklib/props_<group>.py defines PROPS (same shape)
+import glob as _glob, importlib as _importlib, os as _os
+for _f in sorted(_glob.glob(_os.path.join(_os.path.dirname(__file__), "props_*.py"))):
+    _m = _importlib.import_module("checklib." + _os.path.basename(_f)[:-3])
+    PROPS.update(getattr(_m, "PROPS", {}))
